@@ -80,9 +80,13 @@ func (fr *Frame) call(ins ssa.Instruction, c *ssa.CallCommon, st *State) []Term 
 			clo = fr.closureOf(mc)
 		}
 		if callee == nil {
-			cx.name = "dynamic:" + c.Value.Name()
-			cx.fillTypes()
-			rs = fr.havocCall(cx, "call through unknown function value")
+			if cases, idx, ok := fr.staticFuncSlice(c.Value); ok {
+				rs = fr.dispatchCases(cx, cases, idx)
+			} else {
+				cx.name = "dynamic:" + c.Value.Name()
+				cx.fillTypes()
+				rs = fr.havocCall(cx, "call through unknown function value")
+			}
 		} else {
 			cx.callee = callee
 			cx.name = canonName(callee)
@@ -94,6 +98,7 @@ func (fr *Frame) call(ins ssa.Instruction, c *ssa.CallCommon, st *State) []Term 
 			cx.argTs = append(cx.argTs, v.Type())
 		}
 	}
+	fr.afterHooks(cx, rs)
 	if fr.top || true {
 		tf := fr
 		for tf.parent != nil {
@@ -102,6 +107,92 @@ func (fr *Frame) call(ins ssa.Instruction, c *ssa.CallCommon, st *State) []Term 
 		e.callLog = append(e.callLog, &CallRec{Name: cx.name, Instr: ins, Results: rs, Args: cx.args, PC: st.pc, Block: tf.curBlock, Index: tf.curIdx, Depth: fr.depth, After: st.clone(), Before: before})
 	}
 	return rs
+}
+
+// staticFuncSlice: v is loaded from element idx of a slice literal whose elements are statically
+// known function values (e.g. `for _, f := range []fn{a, b, c} { f(...) }`).
+func (fr *Frame) staticFuncSlice(v ssa.Value) ([]*Closure, Term, bool) {
+	ld, ok := v.(*ssa.UnOp)
+	if !ok {
+		return nil, "", false
+	}
+	ia, ok := ld.X.(*ssa.IndexAddr)
+	if !ok {
+		return nil, "", false
+	}
+	sl, ok := ia.X.(*ssa.Slice)
+	if !ok || sl.Low != nil || sl.High != nil {
+		return nil, "", false
+	}
+	al, ok := sl.X.(*ssa.Alloc)
+	if !ok {
+		return nil, "", false
+	}
+	at, ok := al.Type().Underlying().(*types.Pointer).Elem().Underlying().(*types.Array)
+	if !ok || at.Len() > 8 {
+		return nil, "", false
+	}
+	cases := make([]*Closure, at.Len())
+	for _, r := range *al.Referrers() {
+		ea, ok := r.(*ssa.IndexAddr)
+		if !ok {
+			continue
+		}
+		k, ok := ea.Index.(*ssa.Const)
+		if !ok {
+			return nil, "", false
+		}
+		for _, r2 := range *ea.Referrers() {
+			if st, ok := r2.(*ssa.Store); ok && st.Addr == ea {
+				val := st.Val
+				if ct, ok := val.(*ssa.ChangeType); ok {
+					val = ct.X
+				}
+				clo := fr.closureOf(val)
+				if clo == nil {
+					return nil, "", false
+				}
+				cases[int(k.Int64())] = clo
+			}
+		}
+	}
+	for _, c := range cases {
+		if c == nil {
+			return nil, "", false
+		}
+	}
+	return cases, fr.val(ia.Index), true
+}
+
+// dispatchCases executes the call once per possible callee (under idx == k) and merges the outcomes.
+func (fr *Frame) dispatchCases(cx *callCtx, cases []*Closure, idx Term) []Term {
+	e := fr.eng
+	vc := e.vc
+	base := cx.st.clone()
+	var edges []edgeIn
+	var results [][]Term
+	for k, clo := range cases {
+		st := base.clone()
+		st.pc = vc.name("pc", "Bool", and(base.pc, eq(idx, fmt.Sprint(k))))
+		sub := &callCtx{fr: fr, st: st, args: cx.args, argVs: cx.argVs, instr: cx.instr, common: cx.common, sig: cx.sig, callee: clo.fn, name: canonName(clo.fn)}
+		rs := fr.dispatchStatic(sub, clo)
+		edges = append(edges, edgeIn{st: st})
+		results = append(results, rs)
+	}
+	m := fr.mergeStates(edges)
+	m.pc = base.pc // idx is one of the cases (index is in range)
+	*cx.st = *m
+	n := cx.sig.Results().Len()
+	out := make([]Term, n)
+	for i := 0; i < n; i++ {
+		t := results[len(cases)-1][i]
+		for k := len(cases) - 2; k >= 0; k-- {
+			t = ite(eq(idx, fmt.Sprint(k)), results[k][i], t)
+		}
+		out[i] = vc.name("dyn.ret", vc.sortOf(cx.sig.Results().At(i).Type()), t)
+	}
+	cx.name = "dynamic-cases"
+	return out
 }
 
 func ifaceMethodName(c *ssa.CallCommon) string {
